@@ -281,7 +281,9 @@ def load_findings(pid):
     Keys are fnmatch patterns over the oracle's failure keys (clause/call-site/symptom)."""
     import glob
     out = {}
-    for p in [os.path.join(VERIF, 'known_findings.json')] + sorted(glob.glob(os.path.join(VERIF, 'proposed_fixes', '*-findings.json'))):
+    # single committed source; proposed_fixes/*-findings.json are the builders' working notes (consolidated into
+    # known_findings.json by harness/consolidate_findings.py) and are NOT read at check time
+    for p in [os.path.join(VERIF, 'known_findings.json')]:
         if not os.path.exists(p):
             continue
         d = json.load(open(p))
